@@ -839,6 +839,14 @@ func (sa *Application) deallocateAsk(ask *Allocation) (*resources.Resource, erro
 	if !ask.deallocate() {
 		return nil, fmt.Errorf("unable to deallocate pending ask %s on app %s", ask.GetAllocationKey(), sa.ApplicationID)
 	}
+	// an application that was completing has an outstanding ask again: it runs, like when a new ask arrives
+	if sa.stateMachine.Is(Completing.String()) {
+		if err := sa.HandleApplicationEvent(RunApplication); err != nil {
+			log.Log(log.SchedApplication).Debug("Application state change failed while an ask became pending again",
+				zap.String("currentState", sa.CurrentState()),
+				zap.Error(err))
+		}
+	}
 
 	askPriority := ask.GetPriority()
 	if askPriority > sa.askMaxPriority {
